@@ -5,6 +5,7 @@ import (
 	"testing"
 
 	"github.com/free5gc/ike/message"
+	"github.com/free5gc/ike/security"
 	"pgregory.net/rapid"
 
 	"verif/bridge"
@@ -123,6 +124,23 @@ func c13Oracle(in c13In) probe.Outcome {
 		var gm model.Message
 		gm, derr = libUnprotect(w, sa, false, false)
 		got, hdr = gm.Payloads, &gm.Header
+	} else if in.Via == "dd-nokey" || in.Via == "dd-key" {
+		// the unprotected datagram goes through the entry point a receiver actually calls (DecodeDecrypt), without keys or
+		// with the keys of an SA it does not need: C01 - "with no SA keys supplied the same entry points behave as plain ... decode"
+		w, err := ref.EncodeMessage(comb, e)
+		if err != nil {
+			return probe.Fail("HARNESS: reference encoder: %v", err)
+		}
+		var sa *security.IKESAKey
+		if in.Via == "dd-key" {
+			suite := bridge.SuiteSel{Encr: 1, Integ: 0}
+			if sa, err = bridge.NewSA(suite, *fuzzKeysFor(suite)); err != nil {
+				return probe.Fail("HARNESS: %v", err)
+			}
+		}
+		var gm model.Message
+		gm, derr = libUnprotect(w, sa, len(in.Lib)%2 == 0, len(in.Inserts)%2 == 1)
+		got, hdr = gm.Payloads, &gm.Header
 	} else if in.Via == "container" {
 		first, body, err := ref.EncodeChain(comb.Payloads, e)
 		if err != nil {
@@ -218,7 +236,7 @@ var c13Random = probe.Define("C13", "insert",
 			in.Lib = rapid.SliceOfN(rapid.Byte(), 1, 40).Draw(t, "lib")
 		}
 		in.Critical = rapid.Bool().Draw(t, "critsupported")
-		in.Via = rapid.SampledFrom([]string{"message", "message", "container", "sk", "outer-sk"}).Draw(t, "via")
+		in.Via = rapid.SampledFrom([]string{"message", "message", "container", "sk", "outer-sk", "dd-nokey", "dd-key"}).Draw(t, "via")
 		if (in.Via == "message" || in.Via == "container") && rapid.IntRange(0, 4).Draw(t, "host-sk") == 4 {
 			// the plainly decoded chain also carries an (opaque) Encrypted payload somewhere: the walker must follow the
 			// chain through it like through any other payload, so unsupported payloads behind it are still seen
@@ -296,7 +314,7 @@ func TestC13(t *testing.T) {
 			}
 			for pos := range positions {
 				for _, crit := range []bool{false, true} {
-					for _, via := range []string{"message", "container", "sk", "outer-sk"} {
+					for _, via := range []string{"message", "container", "sk", "outer-sk", "dd-nokey", "dd-key"} {
 						if (via == "sk" || via == "outer-sk") && c13HasSK(host) {
 							continue // an Encrypted payload inside an Encrypted payload is not a thing
 						}
